@@ -1,8 +1,9 @@
 (* Key envelopes under 16-, 24- and 32-byte KEKs (KeyEnvelopeAny.v): without label the key is
    carried in clear; with a label and an accepted KEK the key is wrapped and unwraps to itself;
-   every other KEK length is an error on both sides; unwrapping (>= 16 bytes of data) succeeds
-   exactly when the RFC 3394 integrity check passes and never panics; accepted data is a genuine
-   wrap; for 16-byte KEKs the functions are those of KeyEnvelope.v. *)
+   every other KEK length is an error on both sides; for EVERY byte string as AESKey, Unwrap returns
+   a key exactly when the data has 24 bytes and the RFC 3394 integrity check passes under this KEK, it
+   never panics, and the key it returns is the 16 bytes whose wrap the data is; the code before the
+   repair C17-3 is refuted by witnesses (panic, truncation, zero padding, ignored trailing bytes). *)
 From Coq Require Import List NArith Bool Lia PeanoNat.
 From LW Require Import Base.Outcome Base.Bytes Crypto.AES Crypto.AESInv Crypto.AESAny Crypto.AESAnyProofs
   Crypto.KeyWrap Crypto.KeyWrapProofs Crypto.KeyWrapAny Crypto.KeyWrapAnyProofs
@@ -47,8 +48,8 @@ Proof.
   exists w. rewrite (labelled_any label kek key Hl (key_len_ok_nonempty kek Hok)), Hw.
   split; [reflexivity|]. split; [lia|].
   apply unwrap_any_ok_iff_iv in Hu. unfold unwrap_raw_any in Hu. unfold envelope_unwrap_any.
+  replace (length w) with 24%nat by lia. cbn [Nat.eqb negb].
   destruct (expand_key_any kek) as [rks|]; [|discriminate Hu].
-  replace (length w) with 24%nat by lia. cbn [Nat.ltb Nat.leb].
   inversion Hu as [Hr]. rewrite Hr.
   replace (bytes_eqb default_iv default_iv) with true by reflexivity.
   now rewrite copy16_id.
@@ -60,60 +61,90 @@ Theorem envelope_bad_kek label kek key d : label <> [] -> kek <> [] -> ~ key_len
 Proof.
   intros Hl Hk Hbad. rewrite (labelled_any label kek key Hl Hk).
   destruct (any_key_size_error kek key Hbad) as [W _]. rewrite W. split; [reflexivity|].
-  unfold envelope_unwrap_any. apply expand_key_any_none_iff in Hbad. now rewrite Hbad.
+  unfold envelope_unwrap_any. apply expand_key_any_none_iff in Hbad. rewrite Hbad.
+  destruct (negb (Nat.eqb (length d) 24)); reflexivity.
 Qed.
 
-(* ---- unwrapping succeeds exactly when the RFC 3394 integrity check passes ---- *)
+(* ---- Unwrap on EVERY byte string: a key exactly when 24 bytes pass the RFC 3394 check; never a panic ---- *)
+Theorem envelope_unwrap_any_ok_iff d kek k :
+  envelope_unwrap_any d kek = Ok k <->
+  length d = 24%nat /\ exists p, unwrap_any kek d = Some p /\ k = copy16 p.
+Proof.
+  unfold envelope_unwrap_any, unwrap_any, unwrap_raw_any.
+  destruct (Nat.eqb (length d) 24) eqn:L; cbn [negb].
+  - apply Nat.eqb_eq in L. destruct (expand_key_any kek) as [rks|].
+    + destruct (unwrap_raw_rk rks d) as [iv plain]. destruct (bytes_eqb iv default_iv).
+      * split.
+        { intros H. inversion H. split; [exact L|]. exists plain. auto. }
+        { intros (_ & p & Hp & ->). inversion Hp. reflexivity. }
+      * split; [discriminate|]. intros (_ & p & Hp & _). discriminate Hp.
+    + split; [discriminate|]. intros (_ & p & Hp & _). discriminate Hp.
+  - apply Nat.eqb_neq in L. split; [discriminate|]. intros (H & _). contradiction.
+Qed.
+
+Theorem envelope_unwrap_any_total d kek :
+  envelope_unwrap_any d kek = Err \/ exists k, envelope_unwrap_any d kek = Ok k.
+Proof.
+  unfold envelope_unwrap_any. destruct (negb (Nat.eqb (length d) 24)); [left; reflexivity|].
+  destruct (expand_key_any kek) as [rks|]; [|left; reflexivity].
+  destruct (unwrap_raw_rk rks d) as [iv plain]. destruct (bytes_eqb iv default_iv); [right; eauto|left; reflexivity].
+Qed.
+
+Theorem envelope_unwrap_any_never_panics d kek : envelope_unwrap_any d kek <> Panic.
+Proof. destruct (envelope_unwrap_any_total d kek) as [H|[k H]]; rewrite H; discriminate. Qed.
+
+(* in terms of the recovered initial value: the form of the earlier theorem, now for every length *)
 Theorem envelope_unwrap_any_ok_iff_iv d kek :
-  key_len_ok kek -> (16 <= length d)%nat ->
+  key_len_ok kek -> length d = 24%nat ->
   exists iv plain, unwrap_raw_any kek d = Some (iv, plain) /\
     (forall k, envelope_unwrap_any d kek = Ok k <-> iv = default_iv /\ k = copy16 plain) /\
-    (envelope_unwrap_any d kek = Err <-> iv <> default_iv) /\
-    envelope_unwrap_any d kek <> Panic.
+    (envelope_unwrap_any d kek = Err <-> iv <> default_iv).
 Proof.
-  intros Hok Hd. unfold envelope_unwrap_any, unwrap_raw_any.
+  intros Hok Hd. unfold envelope_unwrap_any, unwrap_raw_any. rewrite Hd. cbn [Nat.eqb negb].
   apply expand_key_any_some_iff in Hok. destruct Hok as [rks Hr]. rewrite Hr.
-  replace (length d <? 8)%nat with false by (symmetry; apply Nat.ltb_ge; lia).
-  replace (length d <? 16)%nat with false by (symmetry; apply Nat.ltb_ge; lia).
   destruct (unwrap_raw_rk rks d) as [iv plain]. exists iv, plain. split; [reflexivity|].
   destruct (bytes_eqb iv default_iv) eqn:E.
-  - apply bytes_eqb_eq in E. subst iv. split; [|split].
-    + intros k. split.
-      * intros H. inversion H. split; reflexivity.
-      * intros [_ Hk2]. rewrite Hk2. reflexivity.
+  - apply bytes_eqb_eq in E. subst iv. split.
+    + intros k. split; [intros H; inversion H; auto|intros [_ ->]; reflexivity].
     + split; [discriminate|]. intros H. exfalso. apply H. reflexivity.
-    + discriminate.
   - assert (Hne : iv <> default_iv).
     { intros ->. assert (T : bytes_eqb default_iv default_iv = true) by reflexivity. congruence. }
-    split; [|split].
+    split.
     + intros k. split; [discriminate|]. intros [Hc _]. contradiction.
     + split; [intros _; exact Hne|reflexivity].
-    + discriminate.
 Qed.
 
-(* in terms of [unwrap_any]: Ok exactly when the RFC 3394 unwrap succeeds *)
-Theorem envelope_unwrap_any_ok_iff d kek k :
-  key_len_ok kek -> (16 <= length d)%nat ->
-  (envelope_unwrap_any d kek = Ok k <-> exists p, unwrap_any kek d = Some p /\ k = copy16 p).
+(* ---- the key that comes out has 16 bytes, and the data is its wrap ---- *)
+Local Transparent unwrap_raw_rk.
+Lemma unwrap_raw_rk_24 rks d : Forall st16 rks -> Forall byte d -> length d = 24%nat ->
+  length (snd (unwrap_raw_rk rks d)) = 16%nat.
 Proof.
-  intros Hok Hd.
-  destruct (envelope_unwrap_any_ok_iff_iv d kek Hok Hd) as (iv & plain & Hr & Hk & _).
-  rewrite Hk. split.
-  - intros [-> ->]. exists plain. split; [|reflexivity]. now apply unwrap_any_ok_iff_iv.
-  - intros (p & Hu & ->). apply unwrap_any_ok_iff_iv in Hu. rewrite Hr in Hu.
-    inversion Hu; subst. split; reflexivity.
+  intros Hr Hd Hl. unfold unwrap_raw_rk. rewrite Hl.
+  change (24 / 8 - 1)%nat with 2%nat.
+  assert (Ha : blk8 (firstn 8 d)) by (split; [rewrite firstn_length; lia|apply Forall_firstn', Hd]).
+  destruct (chunks8_spec 2 (skipn 8 d)) as [C1 _].
+  { rewrite skipn_length. lia. } { apply CMACProofs.Forall_skipn', Hd. }
+  destruct (unwrap_passes_inv rks Hr 6 (N.of_nat 2) 0 (firstn 8 d) (chunks8 2 (skipn 8 d)) Ha C1) as (_ & U2 & _).
+  pose proof (unwrap_passes_length 6 rks (N.of_nat 2) 0 (firstn 8 d) (chunks8 2 (skipn 8 d))) as UL.
+  rewrite chunks8_length in UL.
+  destruct (unwrap_passes 6 rks (N.of_nat 2) 0 (firstn 8 d) (chunks8 2 (skipn 8 d))) as [a rs].
+  cbn [fst snd] in *. rewrite concat_blk8_length by exact U2. rewrite UL. reflexivity.
 Qed.
+Local Opaque unwrap_raw_rk.
 
-(* ---- only genuine wraps are accepted ---- *)
-Theorem envelope_unwrap_any_only_wrapped d kek k n :
-  key_len_ok kek -> Forall byte kek -> Forall byte d ->
-  length d = (8 * (n + 1))%nat -> (1 <= n)%nat ->
-  envelope_unwrap_any d kek = Ok k -> exists p, k = copy16 p /\ wrap_any kek p = Some d.
+Theorem envelope_unwrap_any_only_wrapped d kek k :
+  Forall byte kek -> Forall byte d -> envelope_unwrap_any d kek = Ok k ->
+  length d = 24%nat /\ length k = 16%nat /\ wrap_any kek k = Some d.
 Proof.
-  intros Hok Hkb Hdb Hd Hn H.
-  apply (envelope_unwrap_any_ok_iff d kek k Hok ltac:(lia)) in H.
-  destruct H as (p & Hu & ->). exists p. split; [reflexivity|].
-  exact (wrap_unwrap_any kek d p n Hkb Hdb Hd Hu).
+  intros Hkb Hdb H. apply envelope_unwrap_any_ok_iff in H. destruct H as (Hl & p & Hu & ->).
+  split; [exact Hl|].
+  assert (Lp : length p = 16%nat).
+  { pose proof Hu as Hu'. apply unwrap_any_ok_iff_iv in Hu'. unfold unwrap_raw_any in Hu'.
+    destruct (expand_key_any kek) as [rks|] eqn:E; [|discriminate Hu'].
+    pose proof (unwrap_raw_rk_24 rks d (expand_key_any_st16 kek rks Hkb E) Hdb Hl) as L.
+    inversion Hu' as [Hr]. rewrite Hr in L. exact L. }
+  rewrite copy16_id by exact Lp. split; [exact Lp|].
+  exact (wrap_unwrap_any kek d p 2 Hkb Hdb Hl Hu).
 Qed.
 
 (* ---- the form used by the case checker ---- *)
@@ -121,18 +152,40 @@ Theorem envelope_unwrap_any_from_raw d kek :
   envelope_unwrap_any d kek = envelope_unwrap_from_raw d (unwrap_raw_any kek d).
 Proof.
   unfold envelope_unwrap_any, envelope_unwrap_from_raw, unwrap_raw_any.
+  destruct (negb (Nat.eqb (length d) 24)); [reflexivity|].
   destruct (expand_key_any kek) as [rks|]; [|reflexivity].
   destruct (unwrap_raw_rk rks d) as [iv plain]. reflexivity.
 Qed.
 
-(* ---- 16-byte KEKs: the AES-128 model of KeyEnvelope.v ---- *)
+(* ---- the code before the repair ---- *)
+Theorem unwrap_orig_agrees_on_24 d kek : length d = 24%nat ->
+  envelope_unwrap_any d kek = envelope_unwrap_any_orig d kek.
+Proof.
+  intros H. unfold envelope_unwrap_any, envelope_unwrap_any_orig. rewrite H. reflexivity.
+Qed.
+
+(* no data / the bare IV: a run-time panic; 192 bits of key data (RFC 3394 4.4): success with the first 16 bytes;
+   64 bits of key data: success with 8 zero bytes added; a trailing byte: ignored *)
+Theorem unwrap_orig_refuted :
+  envelope_unwrap_any_orig [] (seq_bytes 16) = Panic /\
+  envelope_unwrap_any_orig [1; 2; 3; 4; 5; 6; 7] (seq_bytes 24) = Panic /\
+  envelope_unwrap_any_orig default_iv (seq_bytes 32) = Panic /\
+  envelope_unwrap_any_orig rfc3394_4_4 (seq_bytes 24) = Ok (firstn 16 kd192) /\
+  match wrap_any (seq_bytes 16) (seq_bytes 8) with
+  | Some w => length w = 16%nat /\ envelope_unwrap_any_orig w (seq_bytes 16) = Ok (seq_bytes 8 ++ repeat 0 8)
+  | None => False
+  end /\
+  envelope_unwrap_any_orig (rfc3394_4_2 ++ [255]) (seq_bytes 24) = Ok kd128.
+Proof. vm_compute. repeat split; reflexivity. Qed.
+
+(* ---- 16-byte KEKs: the AES-128 model of KeyEnvelope.v (NewKeyEnvelope as C16 uses it; its Unwrap is the old code) ---- *)
 Theorem envelope_any_128 kek : length kek = 16%nat ->
   (forall label key, new_key_envelope_any label kek key = new_key_envelope label kek key) /\
-  (forall d, envelope_unwrap_any d kek = envelope_unwrap d kek).
+  (forall d, envelope_unwrap_any_orig d kek = envelope_unwrap d kek).
 Proof.
   intros Hk. split.
   - intros label key. unfold new_key_envelope_any, new_key_envelope, new_key_envelope_with.
     rewrite (wrap_any_128 kek key Hk), (kek16_ok kek Hk). reflexivity.
-  - intros d. unfold envelope_unwrap_any, envelope_unwrap, envelope_unwrap_with, unwrap_raw.
+  - intros d. unfold envelope_unwrap_any_orig, envelope_unwrap, envelope_unwrap_with, unwrap_raw.
     rewrite (expand_key_any_128 kek Hk), (kek16_ok kek Hk). reflexivity.
 Qed.
